@@ -12,6 +12,8 @@ import subprocess
 ROOT = os.path.dirname(os.path.dirname(os.path.abspath(__file__)))
 
 MAP = [
+    ("P2WSHSortedMulti.parse also reads a descriptor that is a quoted value of a JSON account map", "C16", "follow-up to 85b22cb: the end anchor refused a Specter-Desktop account map (descriptor as a quoted JSON value followed by \"} or by further keys); a second pattern reads exactly that form and still refuses a tail glued to the descriptor"),
+    ("Tx.parse falls back to the legacy reading only when it accounts for the whole rest of the stream", "C04", "follow-up to 9404a5b: a truncated segwit transaction was returned as an invented legacy transaction without inputs (the segwit error was swallowed)"),
     ("GetHeadersMessage refuses a hash count other than the one locator hash", "C19", "GetHeadersMessage(num_hashes=k) wrote the count k but always one locator hash: for k != 1 the payload is not a getheaders message"),
     ("the p2wpkh signing helpers put the compressed public key into the witness", "C06", "sign_p2wpkh / sign_p2sh_p2wpkh with a key object carrying compressed=False (parsed from an uncompressed WIF) put the 65-byte key into the witness of an output committing to the compressed key: the library's own spend did not verify"),
     ("PSBTIn.validate refuses a RedeemScript or WitnessScript in a slot the spent output does not use", "C11", "the wallet's script attached as RedeemScript to a foreign P2WSH UTXO, or as WitnessScript to a foreign P2SH / P2TR / bare output: never compared with the spent output, the input was summarised as a wallet input"),
